@@ -13,7 +13,16 @@ Tie to /repo (harness/cmd/mutex, real commservices/mutex.SharedMutex built with 
   * stress / lockstep rounds / overlap gates under a 20 s watchdog (deadlock freedom; compatible holders
     must be inside together), plus an in-process occupancy oracle;
   * `markBoolMapForNamespace` (rlock/wlock parsing) reached through the exported pipc.Run and compared
-    with the Lean function.
+    with the Lean function;
+  * tasks layer (lean/Goat/Model/MutexTasks.lean, Props sections 6-8): the holders are pipeline tasks that
+    first wait for the tasks of their wait list and only then take their lock map.  go/ast facts of
+    Runner.runGo / waitForTasks (wait and its error return BEFORE SharedMutex.Lock; task.Close deferred
+    first) are checked by `decide`; `tasks` ops drive the REAL Runner of a freshly assembled application
+    (harness/cmd/mutex/tasks.go) with wait lists and lock maps, bodies = gated probes, a deterministic
+    adversarial family ("D waits for B, they share a written resource, B is parked behind a third task on
+    a smaller resource") and random cases under a random controller; the recorded bodies go through the
+    Lean interval monitor and order monitor; a case whose tasks do not all end is the `all get their
+    turn` clause failing.
 """
 import fcntl
 import glob
@@ -29,20 +38,30 @@ META = dict(
         category="proof",
         text="Lean 4 theorems over all numbers of holders, all lock maps and all schedules (exclusion, compatible "
              "holders are never blocked, deadlock freedom, bounded completion, the unsorted variant deadlocks) for "
-             "an ideal RW lock and for Go's writer-preferring sync.RWMutex as modelled; the model is tied to "
-             "SharedMutex on every run by gated schedule replay compared step by step, a Lean interval monitor "
-             "over recorded critical sections, and stress/lockstep/overlap runs under a watchdog.",
+             "an ideal RW lock and for Go's writer-preferring sync.RWMutex as modelled, and the same for holders "
+             "that are pipeline tasks (any wait lists over earlier tasks, any failing subset: wait first, then "
+             "lock; exclusion, deadlock freedom, bounded completion, body only after the prerequisites ended, "
+             "the lock-before-wait order deadlocks); the model is tied to SharedMutex on every run by gated "
+             "schedule replay compared step by step, a Lean interval monitor over recorded critical sections, "
+             "stress/lockstep/overlap runs under a watchdog; the tasks layer is tied to Runner.runGo by go/ast "
+             "facts checked by `decide` and by task sets with wait lists and lock maps run through the real "
+             "Runner (adversarial family + random controller, interval and order monitors, watchdog).",
         design_ref="DESIGN.md 3 C15"),
     level_note="Proof for the locking protocol over a modelled sync.RWMutex. Trusted: Lean kernel (axioms propext/"
                "Classical.choice/Quot.sound only), the hand-written model of sync.RWMutex and of SharedMutex.Lock/"
                "Unlock (tied by differential gated replay whose reach is bounded by the generator), Go runtime "
-               "goroutine wait reasons used to observe 'blocked', the harness gate scheduler.",
-    technique="Lean 4 proof (invariants of a labelled transition system, greatest-awaited-name argument) + gated "
-              "schedule replay + interval monitor + stress",
+               "goroutine wait reasons used to observe 'blocked', the harness gate scheduler.  Tasks layer: the "
+               "hand-written model of Runner.runGo/waitForTasks (tied by go/ast facts of the statement order and by "
+               "runs of the real Runner whose reach is bounded by the generator; failing bodies are modelled but not "
+               "driven on the implementation here — C14 does that); that a hang is observed only as 'no event for the "
+               "whole watchdog period'.",
+    technique="Lean 4 proof (invariants of a labelled transition system, greatest-awaited-name argument, tasks layer "
+              "reduced to it: waiting tasks hold nothing) + go/ast facts + gated schedule replay + real-Runner task "
+              "sets (adversarial + random controller) + interval/order monitors + stress",
 )
 
 SHARDS = 8
-CONC = ("sched", "stress", "overlap", "rounds")
+CONC = ("sched", "stress", "overlap", "rounds", "tasks")
 
 
 def _kind(op):
@@ -61,6 +80,10 @@ def _agree(impl, model):
 def _concrete(impl):
     """does the implementation's own result contradict the property?"""
     if "hang" in impl.split() or "!timeout" in impl:
+        m = re.search(r"unfinished=(\S+)", impl)
+        if m:
+            return ("tasks %s never got their turn: nothing happened for the whole watchdog period after the last "
+                    "gate was opened (deadlock between lock holding and the wait lists, or a lost wake-up)" % m.group(1))
         return "some holder never got its turn within the 20 s watchdog (deadlock or lost wake-up)"
     m = re.search(r"excl:(\S+)", impl)
     if m:
@@ -121,6 +144,9 @@ def _search(ctx, go, model, holders, tag):
     """Spec vs implementation on the holders of a disagreeing case: lockstep rounds and stress, repeated;
     returns (op, impl result, why) of a concrete failure or None"""
     ops = ["rounds " + holders] * 24 + ["stress %s | 30" % holders] * 8
+    if holders.startswith("tasks "):    # a whole `tasks` op: the same task set under the deterministic and random controllers
+        spec = holders.split(" | ")[0]
+        ops = [spec + " | adv"] + [spec + " | rnd %d" % k for k in range(1, 24)]
     res, trace, crash = _run_impl(ctx, go, ops, tag)
     if crash:
         return ops[crash[0]], "crash", "the process died: " + crash[1][-300:]
@@ -131,8 +157,43 @@ def _search(ctx, go, model, holders, tag):
     tl = [t for t in trace if t]
     for t, v in zip(tl, _run_model(ctx, model, tl, tag + ".mon")):
         if v != "accept":
-            return t, v, "the Lean interval monitor rejects the recorded critical sections"
+            return t, v, _monitor_text(v)
     return None
+
+
+def _monitor_text(v):
+    if v.startswith("early"):
+        return ("order violated: the Lean order monitor answers `%s` (task, prerequisite): a body was entered before "
+                "the body of a task of its wait list had been left" % v)
+    return ("exclusion violated: the Lean interval monitor answers `%s` on the critical sections recorded from the "
+            "real SharedMutex" % v)
+
+
+def _task_specs(op):
+    """[(waits, {name: write?}, nested)] of a `tasks` op"""
+    res = []
+    for t in op.split(" ")[1].split(";"):
+        f = t.split("/")
+        waits = [] if f[0] in ("-", "") else [int(x) for x in f[0].split(",")]
+        rows = {} if f[1] in ("-", "") else dict((r.split(":")[0], r.split(":")[1] == "w") for r in f[1].split(","))
+        res.append((waits, rows, len(f) == 3))
+    return res
+
+
+def _dep_shares(specs):
+    """some task shares a resource, at least one side writing, with a (transitive) prerequisite"""
+    for i, (waits, rows, _) in enumerate(specs):
+        todo, seen = list(waits), set()
+        while todo:
+            j = todo.pop()
+            if j in seen or j >= len(specs):
+                continue
+            seen.add(j)
+            todo += specs[j][0]
+            for n, w in specs[j][1].items():
+                if n in rows and (w or rows[n]):
+                    return True
+    return False
 
 
 def _minimise_sched(ctx, go, model, op):
@@ -165,6 +226,15 @@ def _features(op, impl):
                 f.append("sched:" + tag)
     elif k == "locks":
         f.append("locks:" + impl.split(" ", 1)[0])
+    elif k == "tasks":
+        specs = _task_specs(op)
+        f.append("tasks:" + op.split(" | ")[1].split(" ")[0])
+        if any(w for w, _, _ in specs):
+            f.append("tasks:wait-list")
+        if _dep_shares(specs):
+            f.append("tasks:dependant-shares-resource")
+        if any(n for _, _, n in specs):
+            f.append("tasks:nested-body")
     return f
 
 
@@ -174,6 +244,10 @@ def _nontrivial(op, impl):
         return "~" in impl
     if k == "locks":
         return impl.startswith("map ") and impl != "map -"
+    if k == "tasks":
+        specs = _task_specs(op)
+        names = [set(r) for _, r, _ in specs]
+        return any(w for w, _, _ in specs) or any(names[i] & names[j] for i in range(len(names)) for j in range(i))
     # stress / rounds / overlap: at least two holders share a name
     hs = op.split(" ")[1].split(";")
     names = [set(r.split(":")[0] for r in h.split(",") if ":" in r) for h in hs]
@@ -211,8 +285,39 @@ def _oracle(ctx, go, n):
     return fails
 
 
+def _tasks_oracle(ctx, go, n):
+    """`mutex tasksoracle`: the adversarial family and n/SHARDS random task sets per shard, on the implementation alone"""
+    fails, lock = [], threading.Lock()
+    per = max(1, n // SHARDS)
+
+    def work(si):
+        out = ctx.path("toracle.%d.out" % si)
+        rc, err = ctx.run_lines(go, ["tasksoracle", str(per)], None, out, timeout=7200,
+                                env={"VERIF_SEED": str(ctx.seed * 257 + si)})
+        with lock:
+            if rc != 0:
+                fails.append("FAIL tasksoracle shard %d crashed: rc=%d %s" % (si, rc, err[-800:]))
+            for l in open(out):
+                if l.startswith("FAIL "):
+                    fails.append(l.rstrip("\n"))
+                elif l.startswith("oracle "):
+                    for tok in l.split()[1:]:
+                        k, _, v = tok.partition("=")
+                        if k == "cases":
+                            ctx.evaluations += int(v)
+                        elif k != "fails":
+                            ctx.histogram["oracle:" + k] += int(v)
+
+    ts = [threading.Thread(target=work, args=(si,)) for si in range(SHARDS)]
+    for t in ts:
+        t.start()
+    for t in ts:
+        t.join()
+    return fails
+
+
 def _regenerate_facts(ctx, go):
-    """structural tie (DESIGN 1.4): go/ast skeleton of Lock/Unlock/runGo of the repository under test ->
+    """structural tie (DESIGN 1.4): go/ast skeleton of Lock/Unlock/runGo/waitForTasks of the repository under test ->
     Goat/Tie/ExtractedC15.lean (rewritten only when it changes, under the build lock)"""
     out = ctx.path("ExtractedC15.lean")
     rc, err = ctx.run([go, "facts", ctx.repo], stdout=out)
@@ -243,18 +348,29 @@ def run(ctx):
     model = ctx.build_model("m_mutex")
     n_rand = ctx.pick(20000, 300000)
     n_oracle = ctx.pick(4000, 60000)
+    n_tasks = ctx.pick(3000, 40000)
+    n_toracle = ctx.pick(800, 8000)
     ctx.rule = ("corpus + %d generated ops from VERIF_SEED: 40%% gated schedules (2-6 holders, pools of 1-3 names, maps "
                 "in shuffled order, random gate-opening actions), 20%% stress (2-16 holders, pools of 1-6 names, 1-30 "
                 "iterations), 10%% overlap gates (2-5 mutually compatible holders + bystanders), 10%% lockstep rounds "
                 "(2-8 holders), 20%% rlock/wlock lists; oracle: %d further stress/overlap/rounds cases. non-trivial = "
                 "some holder was observed blocked (sched) / two holders share a name (others) / a non-empty map was "
-                "parsed (locks); distinct = distinct op lines" % (n_rand, n_oracle))
+                "parsed (locks); distinct = distinct op lines.  Tasks layer: the adversarial family (11 task sets: D "
+                "waits for B, both need a resource at least one writes, B is parked behind a third task holding a smaller "
+                "resource; who writes / chains of waits / several blockers / nested bodies vary) under the deterministic "
+                "controller + %d generated task sets (2-7 tasks, pools of 1-4 names, wait lists over earlier tasks in 40%% "
+                "of the tasks, half of those share a conflicting resource with a prerequisite, 1/6 nested bodies) under a "
+                "random controller that interleaves submissions, parked per-name acquisitions and body gates; tasks "
+                "oracle: the family + %d further task sets per 8 shards; non-trivial = a wait list or a shared name"
+                % (n_rand, n_oracle, n_tasks, n_toracle))
     ops = []
     for f in sorted(glob.glob(os.path.join(lib.ROOT, "corpus", "C15", "*.ops"))):
         ops += [l.rstrip("\n") for l in open(f) if l.strip() and not l.startswith("#")]
     n_corpus = len(ops)
     ctx.run([go, "gen", str(n_rand)], stdout=ctx.path("gen.ops"), check=True)
     ops += open(ctx.path("gen.ops")).read().splitlines()
+    ctx.run([go, "gentasks", str(n_tasks)], stdout=ctx.path("gentasks.ops"), check=True)
+    ops += open(ctx.path("gentasks.ops")).read().splitlines()
     ctx.log("running %d ops on the implementation (%d shards) and on the model" % (len(ops), SHARDS))
     impl, trace, crash = _run_impl(ctx, go, ops, "main")
     mod = _run_model(ctx, model, ops, "main")
@@ -273,12 +389,14 @@ def run(ctx):
     ctx.evaluations += len(verdicts)
     ctx.extra["intervals_checked"] = sum(t.count(" ") for _, t in tl)
     rejected = [(i, t, v) for (i, t), v in zip(tl, verdicts) if v != "accept"]
+    for i, t, v in rejected:
+        if not (v.startswith("reject ") or v.startswith("early ")):
+            ctx.fatal("the Lean monitor could not read the trace of op %d (%s): %s" % (i, v, t[:300]))
     ctx.histogram["monitor:accept"] = len(verdicts) - len(rejected)
     ctx.histogram["monitor:reject"] = len(rejected)
     for i, t, v in rejected[:3]:
         concrete_found = True
-        ctx.violation("impl-vs-spec", "exclusion violated: the Lean interval monitor answers `%s` on the critical "
-                      "sections recorded from the real SharedMutex" % v, lines=[ops[i]],
+        ctx.violation("impl-vs-spec", _monitor_text(v), lines=[ops[i]],
                       annotations=["trace: " + t, "monitor: " + v], concrete=True)
     # --- line-by-line comparison
     mism = []
@@ -299,8 +417,13 @@ def run(ctx):
         why = _concrete(a)
         if why:
             concrete_found = True
-            ctx.violation("impl-vs-spec", "op %d: %s" % (i, why), lines=[o],
-                          annotations=["impl: " + a, "model: " + b], concrete=True)
+            ann = ["impl: " + a, "model: " + b]
+            if _kind(o) == "tasks":
+                sw = _run_model(ctx, model, ["tswap " + o.split(" ")[1]], "swap%d" % i)[0]
+                ann.append("model of the swapped order (SharedMutex.Lock before waitForTasks, tsysSwapped) on this task "
+                           "set: " + sw + (" (schedule of task indices reaching a state with no enabled step)"
+                                           if sw.startswith("stuck") else ""))
+            ctx.violation("impl-vs-spec", "op %d: %s" % (i, why), lines=[o], annotations=ann, concrete=True)
             continue
         mo = o
         ann = ["impl: " + a, "model: " + b]
@@ -311,7 +434,7 @@ def run(ctx):
                 ann = ["original op: " + o, "impl: " + (ra[0] or "crash"),
                        "model: " + _run_model(ctx, model, [mo], "minfinal")[0]]
         if _kind(o) in CONC:
-            found = _search(ctx, go, model, o.split(" ")[1], "search%d" % i)
+            found = _search(ctx, go, model, o if _kind(o) == "tasks" else o.split(" ")[1], "search%d" % i)
             if found:
                 concrete_found = True
                 fo, fr, fwhy = found
@@ -327,14 +450,20 @@ def run(ctx):
         m = re.match(r"FAIL (.*) => (.*)$", f)
         ctx.violation("impl-vs-spec", "oracle: " + (_concrete(m.group(2)) if m else f),
                       lines=[m.group(1)] if m else [], annotations=["oracle: " + f], concrete=True)
-    for k in ("sched:~w", "sched:~a", "sched:~r", "sched:ND", "locks:err", "locks:map"):
+    for f in _tasks_oracle(ctx, go, n_toracle)[:3]:
+        concrete_found = True
+        m = re.match(r"FAIL (.*) => (.*)$", f)
+        ctx.violation("impl-vs-spec", "tasks oracle: " + (_concrete(m.group(2)) or m.group(2) if m else f),
+                      lines=[m.group(1)] if m else [], annotations=["oracle: " + f], concrete=True)
+    for k in ("sched:~w", "sched:~a", "sched:~r", "sched:ND", "locks:err", "locks:map", "tasks:adv", "tasks:rnd",
+              "tasks:wait-list", "tasks:dependant-shares-resource", "tasks:nested-body"):
         if not ctx.histogram.get(k):
             ctx.notes.append("coverage gap: no case hit " + k)
     if failed:
         def searcher():
             if concrete_found:
                 return True
-            deep = _oracle(ctx, go, 40000)
+            deep = _tasks_oracle(ctx, go, 8000) + _oracle(ctx, go, 40000)
             for f in deep[:3]:
                 m = re.match(r"FAIL (.*) => (.*)$", f)
                 ctx.violation("impl-vs-spec", "oracle (deep): " + (_concrete(m.group(2)) if m else f),
@@ -351,13 +480,19 @@ def run(ctx):
         "the ideal lock (Variant.plain)",
         "every holder calls Lock once, then Unlock once (the documented contract of SharedMutex); holders that nest "
         "Lock calls are outside the property",
+        "tasks layer: a wait list names only tasks created earlier (TasksManager.Create rejects unknown names: "
+        "validWaitList), Task.Wait returns only after Task.Close, and runGo's deferred calls run in reverse order "
+        "(Unlock before Close) — the last two read off the go/ast facts, the first is C14's territory",
     ]
     ctx.trusted_base += [
         "go/ast fact extractor (harness/cmd/mutex facts): syntactic skeleton of SharedMutex.Lock, unlockHandler.Unlock and "
-        "Runner.runGo compared with the model's assumptions by `decide` (tie_mutex_sorted, tie_mutex_unlock, "
-        "tie_runner_brackets)",
+        "Runner.runGo and Runner.waitForTasks compared with the models' assumptions by `decide` (tie_mutex_sorted, "
+        "tie_mutex_unlock, tie_runner_brackets)",
         "Go runtime goroutine dump (wait reasons sync.Mutex.Lock / sync.RWMutex.Lock / sync.RWMutex.RLock) used to observe "
         "that a holder is blocked, and the harness gate scheduler built on verifhook.Yield(\"mutex.acquire\")",
+        "tasks layer: go/ast facts tie_runner_waits_before_lock, tie_runner_wait_loop, tie_runner_closes_after_unlock; the "
+        "real-Runner harness (harness/cmd/mutex/tasks.go: application assembled like pipelinem's own tests, probe command, "
+        "controller steering by stop-the-world goroutine snapshots — steering only, no verdict depends on it)",
     ]
 
 
@@ -367,13 +502,13 @@ def replay(ctx, path):
     ops = [l for l in lib.replay_ops(path)]
     rc = 0
     for o in ops:
-        if _kind(o) == "ivs":
+        if _kind(o) in ("ivs", "tivs"):
             v = _run_model(ctx, model, [o], "rp")[0]
             print("trace ", o)
             print("monitor", v)
             rc |= v != "accept"
             continue
-        reps = 1 if _kind(o) == "locks" else (8 if _kind(o) == "sched" else 20)
+        reps = 1 if _kind(o) == "locks" else (8 if _kind(o) == "sched" else (3 if _kind(o) == "tasks" else 20))
         for k in range(reps):
             impl, trace, crash = _run_impl(ctx, go, [o], "rp")
             m = _run_model(ctx, model, [o], "rp")[0]
